@@ -39,7 +39,8 @@ OBLIGATIONS = {"period:valid": 300, "period:missing": 100, "period:gap-missing":
                "P=1800": 50, "P=3600": 50, "unit:s": 20, "unit:ms": 20, "unit:us": 20,
                "unit:ns": 20, "tz:utc": 20, "tz:+10": 20, "era:outside-int32-seconds": 20,
                "era:across-epoch": 3, "kernel:prefilled-buffer": 50,
-               "era:beyond-nanosecond-range": 5, "process-tz:non-utc": 50}
+               "era:beyond-nanosecond-range": 5, "process-tz:non-utc": 50,
+               "record-longer-than-2^31-seconds": 2}
 
 T0 = 946684800      # 2000-01-01 00:00:00 UTC
 
@@ -58,8 +59,10 @@ def gen_series(rng, it, tier):
     # the epoch, across 2^31 s (Jan 2038) and far beyond
     era = [T0, T0, T0, -2 ** 31 - 40 * 86400, -2 ** 31 - 7200, -3 * 3600, 2 ** 31 - 7200,
            2 ** 31 + 30 * 86400, 4102444800, 8836000000, -2524521600,
-           10413792000, -11676096000][it % 13]     # ... 2300 and 1600: beyond what a
-    # nanosecond index can hold (only the s / ms / us storage units reach them)
+           10413792000, -11676096000,             # ... 2300 and 1600: beyond what a
+           # nanosecond index can hold (only the s / ms / us storage units reach them)
+           -5206032000, 6942240000][it % 15]      # 1805 and 2190: inside that range, but
+    # where the nanosecond count no longer fits the 53 bits of a double
     era = (era // 3600) * 3600
     t = era + (int(rng.integers(0, 400)) * 86400 if era == T0 else 0) + \
         int(rng.integers(0, 24 if era == T0 else 2)) * 3600 + first
@@ -336,7 +339,82 @@ def run(ctx):
         run_case(ctx, case)
         if it0 % 20 == 0:
             ctx.sample(case)
+        if it0 % 25 == 3:
+            j = it // 25
+            run_long_span(ctx, {"kind": "longspan", "seed": int(rng.integers(0, 2 ** 31)),
+                                "P": [3600, 1800][j % 2],
+                                "unit": ["ns", "s", "us", "ms"][j % 4],
+                                "tz": ["naive", "utc", "+10"][j % 3],
+                                "rainfall": bool(j % 2),
+                                "start": [-946771200, -1104537600, 0, 86400 * 365][j % 4],
+                                "span": [2 ** 31 + 86400 * 30, 75 * 31557600,
+                                         2 ** 31 - 3600, 2 ** 32 + 7200][j % 4]})
+
+
+def run_long_span(ctx, case):
+    """a record longer than 2^31 seconds (68 years): a few days of data in 19xx, a gap of
+    decades, a few days of data at the end. Hundreds of thousands of periods come out; the
+    ones around the two clusters are judged against the exact integral, the ones in the
+    gap must be missing."""
+    rng = np.random.default_rng(int(case["seed"]))
+    P = int(case["P"])
+    unit, tz = case["unit"], case["tz"]
+    maxgap = 5 * 86400
+    rainfall = bool(case["rainfall"])
+    t0 = int(case["start"])
+    span = int(case["span"])
+    c1 = t0 + np.concatenate([[int(rng.integers(0, 3600))],
+                              np.cumsum(rng.choice([600, 1800, 3600, 9000], size=30))])
+    c2 = t0 + span + np.concatenate([[0], np.cumsum(rng.choice([600, 1800, 3600, 9000],
+                                                               size=30))])
+    c2 = c2 + c1[0]
+    stamps = np.concatenate([c1, c2]).astype(np.int64)
+    vals = rng.integers(0, 40, size=len(stamps)) / 4.0
+    ctx.evaluated()
+    ctx.tag("record-longer-than-2^31-seconds")
+    ctx.api("var2h")
+    se = build_series(stamps, vals, unit, tz)
+    try:
+        out = call(se, P, maxgap, rainfall)
+    except Exception as e:
+        ctx.check("var2h.runs", False, f"var2h|raises|long-record|unit={unit}", case,
+                  {"exc": repr(e)[:300], "span_years": span / 31557600.0})
+        return
+    oi = out.index
+    osec = (oi.tz_localize(None) if oi.tz is not None else oi).as_unit("s").asi8
+    ov = out.values.astype(float)
+    hstart = (int(stamps[0]) // 3600) * 3600 + 3600
+    nexp = (int(stamps[-1]) - hstart) // P
+    okidx = len(osec) >= nexp and int(osec[0]) == hstart and \
+        bool(np.all(np.diff(osec) == P))
+    ctx.check("var2h.index", okidx, "var2h|index|long-record", case,
+              lambda: {"n": int(len(osec)), "expected_at_least": int(nexp),
+                       "first": int(osec[0]) if len(osec) else None})
+    if not okidx:
+        return
+    i1 = int((c1[-1] - hstart) // P) + 2
+    i2 = int((c2[0] - hstart) // P) - 2
+    mid = ov[i1 + 200:i2 - 200]
+    ctx.check("var2h.gap-missing", bool(np.all(np.isnan(mid))) and len(mid) > 1000,
+              "var2h|not-missing|gap|long-record", case,
+              lambda: {"n_periods_in_gap": int(len(mid)),
+                       "not_missing": int(np.isfinite(mid).sum())})
+    for i in list(range(0, i1)) + list(range(i2, len(osec) - 1)):
+        S = int(osec[i])
+        status, ref = integrate(stamps, vals, S, S + P, rainfall, maxgap)
+        got = float(ov[i])
+        if status == "valid":
+            ok = (not math.isnan(got)) and abs(got - ref) <= 1e-9 * max(abs(ref), 1e-5)
+            ctx.check("var2h.period-average", ok, "var2h|value|long-record", case,
+                      lambda: {"period": i, "start": S, "got": got, "expected": ref})
+            ctx.nontrivial("long", S, got)
+        elif status == "missing":
+            ctx.check("var2h.missing-when-invalid", math.isnan(got),
+                      "var2h|not-missing|long-record", case,
+                      lambda: {"period": i, "start": S, "got": got})
 
 
 def replay(ctx, case):
+    if case.get("kind") == "longspan":
+        return run_long_span(ctx, case)
     run_case(ctx, case)
